@@ -1,13 +1,50 @@
-//! C14 prototype (step 1): clear path + mod_switch
+//! C14: lookup tables (clear path), mod_switch_2n, and CGGI blind rotation (blind path) of poulpy-bin-fhe.
+//!
+//! OBSERVATION OF THE TABLE LIMBS.  `LookupTable { data, rot_dir, base2k, k, drift }` has only pub(crate) fields and no
+//! public getter returns the limbs (nor `drift`).  What IS public: `LookupTable::{alloc,set,extension_factor,domain_size,
+//! rotation_direction,set_rotation_direction}`, the infos trait (n, k, base2k, size) and -- through the public trait
+//! `LookupTableFactory` -- `Module::lookup_table_rotate(k, &mut lut)`.  Until a `#[cfg(poulpy_verif)]` accessor exists the
+//! limbs are read through `peek`: a field-for-field mirror struct (same field types, same order => same layout under the
+//! same rustc without -Zrandomize-layout), guarded at run time by size/align and by cross-checking every public getter;
+//! op 14010 (blind rotation with a zero mask: exact, noise free, no decryption) reads the same limbs through the public
+//! API only and so validates the mirror on every run.
+//!
+//! records
+//!   14001 set              ps=[be N ext base2k k_lut kmsg]        vs=[f]        -> [data_0 .. data_{ext-1} (limb-major flat), [drift]]
+//!   14002 set;rotate(k)    ps=[be N ext base2k k_lut kmsg k]      vs=[f]        -> same
+//!   14003 set;rotate sweep ps=[be N ext base2k k_lut kmsg]        vs=[f, ks]    -> for each k: the limbs of coefficient 0 of data_0
+//!   14004 mod_switch_2n    ps=[n2 base2k size dir]                vs=[limb_0..] -> [res]
+//!   14010 blind, raw       ps=BP                                  vs=[f, lwe (limb-major flat), sk_lwe] -> [res col 0.. (limb-major flat)]
+//!   14020 blind, decrypted ps=BP                                  vs=[f, lwe, sk_lwe] -> [lwe_2n, round_F(decrypt(res))]
+//!   BP = [be N ext block n_lwe base2k k_lwe k_brk rows k_lut k_res rank kmsg dir dist key_seed x p]
+//!        dist: 0 BinaryBlock(block) 1 BinaryFixed(n_lwe/2) 2 BinaryProb(0.5) 3 ZERO ; dir: 0 Left 1 Right
+//!   round_F: the decrypted plaintext (all k_res limbs) as an integer, rounded half-up to F = lut.size()*base2k bits
+//!            (the precision of the table = "all limbs above the noise floor": the comparison is exact iff the noise is
+//!            below 2^-(F+1)), reduced to the balanced residue mod 2^F.
 use poulpy_bin_fhe::blind_rotation::{
-    LookUpTableLayout, LookUpTableRotationDirection, LookupTable, LookupTableFactory, LookupTableInfos, mod_switch_2n,
+    BlindRotationKey, BlindRotationKeyEncryptSk, BlindRotationKeyLayout, BlindRotationKeyPrepared, CGGI, LookUpTableLayout,
+    LookUpTableRotationDirection, LookupTable, LookupTableFactory, LookupTableInfos, mod_switch_2n,
 };
-use poulpy_core::layouts::{Base2K, Degree, LWE, LWEToRef, TorusPrecision};
-use poulpy_hal::layouts::{VecZnx, ZnxInfos, ZnxView, ZnxViewMut};
+use poulpy_core::EncryptionLayout;
+use poulpy_core::api::*;
+use poulpy_core::layouts::{
+    Base2K, Degree, Dnum, GLWE, GLWELayout, GLWEPlaintext, GLWESecret, GLWESecretPreparedFactory, LWE, LWELayout,
+    LWEPlaintext, LWESecret, LWEToRef, Rank, TorusPrecision, prepared::GLWESecretPrepared,
+};
+use poulpy_hal::api::{ScratchOwnedAlloc, ScratchOwnedBorrow};
+use poulpy_hal::layouts::{Backend, DeviceBuf, Module, ScratchOwned, VecZnx, ZnxInfos, ZnxView, ZnxViewMut};
+use poulpy_hal::source::Source;
 use poulpy_verif_harness::hal::*;
 use poulpy_verif_harness::rec::*;
 use poulpy_verif_harness::with_be;
+use std::any::Any;
+use std::cell::RefCell;
+use std::collections::HashMap;
+use std::rc::Rc;
 
+// ------------------------------------------------------------------------------------------------------------
+// reading the table
+// ------------------------------------------------------------------------------------------------------------
 #[allow(dead_code)]
 struct LutMirror {
     data: Vec<VecZnx<Vec<u8>>>,
@@ -24,36 +61,215 @@ fn peek(lut: &LookupTable) -> &LutMirror {
     assert_eq!(m.data.len(), lut.extension_factor());
     assert_eq!(m.base2k, LookupTableInfos::base2k(lut));
     assert_eq!(m.k, LookupTableInfos::k(lut));
+    assert_eq!(m.data[0].n() * m.data.len(), lut.domain_size());
+    assert_eq!(m.data[0].size(), LookupTableInfos::size(lut));
     m
+}
+
+fn flat(v: &VecZnx<Vec<u8>>, col: usize) -> Vec<i128> {
+    let mut w = Vec::with_capacity(v.size() * v.n());
+    for j in 0..v.size() {
+        w.extend(v.at(col, j).iter().map(|x| *x as i128));
+    }
+    w
 }
 
 fn dump_lut(lut: &LookupTable) -> Vec<Vec<i128>> {
     let m = peek(lut);
-    let mut out: Vec<Vec<i128>> = m
-        .data
-        .iter()
-        .map(|v| {
-            let mut w = Vec::new();
-            for j in 0..v.size() {
-                w.extend(v.at(0, j).iter().map(|x| *x as i128));
-            }
-            w
-        })
-        .collect();
+    let mut out: Vec<Vec<i128>> = m.data.iter().map(|v| flat(v, 0)).collect();
     out.push(vec![m.drift as i128]);
     out
+}
+
+fn mk_lut<M: LookupTableFactory>(m: &M, n: usize, ext: usize, base2k: u32, k_lut: u32, kmsg: usize, f: &[i64]) -> LookupTable {
+    let infos = LookUpTableLayout { n: Degree(n as u32), extension_factor: ext, k: TorusPrecision(k_lut), base2k: Base2K(base2k) };
+    let mut lut = LookupTable::alloc(&infos);
+    lut.set(m, f, kmsg);
+    lut
+}
+
+// ------------------------------------------------------------------------------------------------------------
+// blind path: keys
+// ------------------------------------------------------------------------------------------------------------
+#[derive(Clone, Copy, Debug)]
+struct Bp {
+    be: i128, n: usize, ext: usize, block: usize, n_lwe: usize, base2k: u32, k_lwe: u32, k_brk: u32, rows: u32,
+    k_lut: u32, k_res: u32, rank: u32, kmsg: usize, dir: i128, dist: i128, key_seed: u64, x: i64, p: usize, b_lwe: u32,
+}
+fn bp(p: &[i128]) -> Bp {
+    Bp { be: p[0], n: p[1] as usize, ext: p[2] as usize, block: p[3] as usize, n_lwe: p[4] as usize, base2k: p[5] as u32,
+         k_lwe: p[6] as u32, k_brk: p[7] as u32, rows: p[8] as u32, k_lut: p[9] as u32, k_res: p[10] as u32, rank: p[11] as u32,
+         kmsg: p[12] as usize, dir: p[13], dist: p[14], key_seed: p[15] as u64, x: p[16] as i64, p: p[17] as usize, b_lwe: p[18] as u32 }
+}
+impl Bp {
+    fn ps(&self) -> Vec<i128> {
+        vec![self.be, self.n as i128, self.ext as i128, self.block as i128, self.n_lwe as i128, self.base2k as i128, self.k_lwe as i128,
+             self.k_brk as i128, self.rows as i128, self.k_lut as i128, self.k_res as i128, self.rank as i128, self.kmsg as i128,
+             self.dir, self.dist, self.key_seed as i128, self.x as i128, self.p as i128, self.b_lwe as i128]
+    }
+    fn key_id(&self) -> Vec<i128> {
+        vec![self.be, self.n as i128, self.block as i128, self.n_lwe as i128, self.base2k as i128, self.k_brk as i128, self.rows as i128,
+             self.k_res as i128, self.rank as i128, self.dist, self.key_seed as i128, self.ext.min(2) as i128]
+    }
+    fn glwe_layout(&self) -> GLWELayout {
+        GLWELayout { n: Degree(self.n as u32), base2k: Base2K(self.base2k), k: TorusPrecision(self.k_res), rank: Rank(self.rank) }
+    }
+    fn lwe_layout(&self) -> LWELayout {
+        LWELayout { n: Degree(self.n_lwe as u32), k: TorusPrecision(self.k_lwe), base2k: Base2K(self.b_lwe) }
+    }
+    fn brk_layout(&self) -> BlindRotationKeyLayout {
+        BlindRotationKeyLayout { n_glwe: Degree(self.n as u32), n_lwe: Degree(self.n_lwe as u32), base2k: Base2K(self.base2k),
+                                 k: TorusPrecision(self.k_brk), dnum: Dnum(self.rows), rank: Rank(self.rank) }
+    }
+}
+
+fn seed32(s: u64, tag: u8) -> [u8; 32] {
+    let mut b = [tag; 32];
+    b[..8].copy_from_slice(&s.to_le_bytes());
+    b
+}
+
+struct KeySet<BE: Backend> {
+    module: Module<BE>,
+    sk_glwe: GLWESecretPrepared<DeviceBuf<BE>, BE>,
+    sk_lwe: LWESecret<Vec<u8>>,
+    brk: BlindRotationKeyPrepared<DeviceBuf<BE>, CGGI, BE>,
+    scratch: RefCell<ScratchOwned<BE>>,
+}
+
+thread_local! {
+    static KEYS: RefCell<HashMap<Vec<i128>, Rc<dyn Any>>> = RefCell::new(HashMap::new());
+}
+
+macro_rules! keyset {
+    ($BE:ident, $c:expr) => {{
+        let c: &Bp = $c;
+        let id = c.key_id();
+        let hit: Option<Rc<dyn Any>> = KEYS.with(|k| k.borrow().get(&id).cloned());
+        let rc: Rc<dyn Any> = match hit {
+            Some(r) => r,
+            None => {
+                let module: Module<$BE> = module::<$BE>(c.n);
+                let brk_infos = EncryptionLayout::new_from_default_sigma(c.brk_layout()).unwrap();
+                let glwe_infos = c.glwe_layout();
+                let mut source_xs = Source::new(seed32(c.key_seed, 1));
+                let mut source_xe = Source::new(seed32(c.key_seed, 2));
+                let mut source_xa = Source::new(seed32(c.key_seed, 3));
+                let mut sk_glwe: GLWESecret<Vec<u8>> = GLWESecret::alloc_from_infos(&glwe_infos);
+                sk_glwe.fill_ternary_prob(0.5, &mut source_xs);
+                let mut sk_glwe_dft = module.glwe_secret_prepared_alloc_from_infos(&glwe_infos);
+                module.glwe_secret_prepare(&mut sk_glwe_dft, &sk_glwe);
+                let mut sk_lwe: LWESecret<Vec<u8>> = LWESecret::alloc(Degree(c.n_lwe as u32));
+                match c.dist {
+                    0 => sk_lwe.fill_binary_block(c.block, &mut source_xs),
+                    1 => sk_lwe.fill_binary_hw(c.n_lwe / 2, &mut source_xs),
+                    2 => sk_lwe.fill_binary_prob(0.5, &mut source_xs),
+                    3 => sk_lwe.fill_zero(),
+                    _ => panic!("bad dist"),
+                }
+                let bytes = BlindRotationKey::<Vec<u8>, CGGI>::encrypt_sk_tmp_bytes(&module, &brk_infos)
+                    .max(BlindRotationKeyPrepared::<DeviceBuf<$BE>, CGGI, $BE>::execute_tmp_bytes(&module, c.block, 8, &glwe_infos, &brk_infos))
+                    .max(1 << 20);
+                let mut scratch: ScratchOwned<$BE> = ScratchOwned::<$BE>::alloc(bytes);
+                let mut brk: BlindRotationKey<Vec<u8>, CGGI> = BlindRotationKey::<Vec<u8>, CGGI>::alloc(&brk_infos);
+                module.blind_rotation_key_encrypt_sk(&mut brk, &sk_glwe_dft, &sk_lwe, &brk_infos, &mut source_xe, &mut source_xa, scratch.borrow());
+                let mut brk_prepared: BlindRotationKeyPrepared<DeviceBuf<$BE>, CGGI, $BE> = BlindRotationKeyPrepared::alloc(&module, &brk);
+                brk_prepared.prepare(&module, &brk, scratch.borrow());
+                let ks: KeySet<$BE> = KeySet { module, sk_glwe: sk_glwe_dft, sk_lwe, brk: brk_prepared, scratch: RefCell::new(scratch) };
+                let rc: Rc<dyn Any> = Rc::new(ks);
+                KEYS.with(|k| {
+                    let mut k = k.borrow_mut();
+                    if k.len() >= 6 { k.clear(); }
+                    k.insert(id, rc.clone());
+                });
+                rc
+            }
+        };
+        rc.downcast::<KeySet<$BE>>().ok().expect("key cache type")
+    }};
+}
+
+fn sk_lwe_of(c: &Bp) -> Vec<i64> {
+    with_be!(c.be, BE, { let ks = keyset!(BE, c); ks.sk_lwe.raw().to_vec() })
+}
+
+/// fresh encryption of x on p+1 bits (one padding bit), as the crate's own test does
+fn fresh_lwe(c: &Bp, enc_seed: u64) -> Vec<i128> {
+    with_be!(c.be, BE, {
+        let ks = keyset!(BE, c);
+        let lwe_infos = EncryptionLayout::new_from_default_sigma(c.lwe_layout()).unwrap();
+        let mut lwe: LWE<Vec<u8>> = LWE::alloc_from_infos(&lwe_infos);
+        let mut pt: LWEPlaintext<Vec<u8>> = LWEPlaintext::alloc_from_infos(&lwe_infos);
+        pt.encode_i64(c.x, TorusPrecision(c.p as u32 + 1));
+        let mut xe = Source::new(seed32(enc_seed, 5));
+        let mut xa = Source::new(seed32(enc_seed, 6));
+        ks.module.lwe_encrypt_sk(&mut lwe, &pt, &ks.sk_lwe, &lwe_infos, &mut xe, &mut xa, ks.scratch.borrow_mut().borrow());
+        flat(lwe.data(), 0)
+    })
+}
+
+fn blind(c: &Bp, r: &Rec) -> Vec<Vec<i128>> {
+    with_be!(c.be, BE, {
+        let ks = keyset!(BE, c);
+        let m = &ks.module;
+        assert_eq!(v64(&r.vs[2]), ks.sk_lwe.raw().to_vec(), "record's sk_lwe is not the one derived from key_seed");
+        let mut lut = mk_lut(m, c.n, c.ext, c.base2k, c.k_lut, c.kmsg, &v64(&r.vs[0]));
+        if c.dir == 1 { lut.set_rotation_direction(LookUpTableRotationDirection::Right); }
+        let lwe_infos = c.lwe_layout();
+        let mut lwe: LWE<Vec<u8>> = LWE::alloc_from_infos(&lwe_infos);
+        let sz = lwe.data().size();
+        let w = c.n_lwe + 1;
+        assert_eq!(r.vs[1].len(), sz * w);
+        for j in 0..sz {
+            lwe.data_mut().at_mut(0, j).copy_from_slice(&v64(&r.vs[1][j * w..(j + 1) * w]));
+        }
+        let glwe_infos = c.glwe_layout();
+        let mut res: GLWE<Vec<u8>> = GLWE::alloc_from_infos(&glwe_infos);
+        let mut sc = ks.scratch.borrow_mut();
+        ks.brk.execute(m, &mut res, &lwe, &lut, sc.borrow());
+        if r.code == 14010 {
+            return (0..=c.rank as usize).map(|i| flat(res.data(), i)).collect();
+        }
+        let mut pt: GLWEPlaintext<Vec<u8>> = GLWEPlaintext::alloc_from_infos(&glwe_infos);
+        m.glwe_decrypt(&res, &mut pt, &ks.sk_glwe, sc.borrow());
+        let mut lwe_2n = vec![0i64; w];
+        mod_switch_2n(2 * lut.domain_size(), &mut lwe_2n, &lwe.to_ref(), lut.rotation_direction());
+        // round to F = lut.size()*base2k bits
+        let b = c.base2k as u32;
+        let rs = pt.data().size() as u32;
+        let ls = LookupTableInfos::size(&lut) as u32;
+        assert!(rs >= ls && rs * b <= 120);
+        let sh = (rs - ls) * b;
+        let fbits = ls * b;
+        let rounded: Vec<i128> = (0..c.n).map(|i| {
+            let mut v: i128 = 0;
+            for j in 0..rs as usize { v = (v << b) + pt.data().at(0, j)[i] as i128; }
+            let q = if sh == 0 { v } else { (v + (1i128 << (sh - 1))) >> sh };
+            let md = 1i128 << fbits;
+            let t = ((q % md) + md) % md;
+            if t >= md / 2 { t - md } else { t }
+        }).collect();
+        vec![to128(&lwe_2n), rounded]
+    })
 }
 
 fn op(r: &Rec) -> Vec<Vec<i128>> {
     let p = &r.ps;
     match r.code {
-        14001 | 14002 => {
+        14001 | 14002 | 14003 => {
             let (be, n, ext, base2k, k_lut, kmsg) = (p[0], p[1] as usize, p[2] as usize, p[3] as u32, p[4] as u32, p[5] as usize);
             with_be!(be, BE, {
                 let m = module::<BE>(n);
-                let infos = LookUpTableLayout { n: Degree(n as u32), extension_factor: ext, k: TorusPrecision(k_lut), base2k: Base2K(base2k) };
-                let mut lut = LookupTable::alloc(&infos);
-                lut.set(&m, &v64(&r.vs[0]), kmsg);
+                let f = v64(&r.vs[0]);
+                if r.code == 14003 {
+                    return r.vs[1].iter().map(|k| {
+                        let mut lut = mk_lut(&m, n, ext, base2k, k_lut, kmsg, &f);
+                        m.lookup_table_rotate(*k as i64, &mut lut);
+                        let d = &peek(&lut).data[0];
+                        (0..d.size()).map(|j| d.at(0, j)[0] as i128).collect()
+                    }).collect();
+                }
+                let mut lut = mk_lut(&m, n, ext, base2k, k_lut, kmsg, &f);
                 if r.code == 14002 {
                     m.lookup_table_rotate(p[6] as i64, &mut lut);
                 }
@@ -73,6 +289,7 @@ fn op(r: &Rec) -> Vec<Vec<i128>> {
             mod_switch_2n(n2, &mut res, &lwe.to_ref(), d);
             vec![to128(&res)]
         }
+        14010 | 14020 => blind(&bp(p), r),
         _ => panic!("c14: unknown op"),
     }
 }
@@ -82,13 +299,221 @@ pub fn exec(r: &Rec) -> Out {
     guard(move || op(&r2))
 }
 
-pub fn generate(_tier: &str, _seed: u64) -> Vec<Rec> {
-    let mut out = vec![];
-    out.push(Rec::new(14001, vec![1, 8, 2, 4, 8, 3], vec![vec![1, 2, 3, -1]]));
-    out.push(Rec::new(14002, vec![1, 8, 2, 4, 8, 3, 1], vec![vec![1, 2, 3, -1]]));
-    out.push(Rec::new(14002, vec![1, 8, 2, 4, 8, 3, -100], vec![vec![1, 2, 3, -1]]));
-    for b in [4, 5, 6, 8] {
-        out.push(Rec::new(14004, vec![16, b, 2, 1], vec![vec![-8, -7, -3, -1, 0, 1, 3, 7], vec![0, 1, 2, 3, 4, 5, 6, 7]]));
+fn test_params(be: i128) -> Bp {
+    // the parameters of poulpy-bin-fhe/src/blind_rotation/tests/test_suite/generic_blind_rotation.rs
+    Bp { be, n: 512, ext: 1, block: 1, n_lwe: 224, base2k: 19, k_lwe: 24, k_brk: 57, rows: 2, k_lut: 19, k_res: 38, rank: 1,
+         kmsg: 5, dir: 0, dist: 0, key_seed: 1, x: 0, p: 4, b_lwe: 19 }
+}
+fn alt_params(be: i128) -> Bp {
+    // a second LWE dimension / radix combination (LWE radix different from the GLWE radix, as circuit bootstrapping uses)
+    Bp { be, n: 256, ext: 1, block: 1, n_lwe: 96, base2k: 17, k_lwe: 28, k_brk: 51, rows: 2, k_lut: 17, k_res: 34, rank: 1,
+         kmsg: 5, dir: 0, dist: 0, key_seed: 1, x: 0, p: 4, b_lwe: 14 }
+}
+fn tiny_params(be: i128, n: usize) -> Bp {
+    Bp { be, n, ext: 1, block: 1, n_lwe: 2, base2k: 19, k_lwe: 19, k_brk: 57, rows: 2, k_lut: 19, k_res: 38, rank: 1,
+         kmsg: 5, dir: 0, dist: 0, key_seed: 3, x: 0, p: 4, b_lwe: 19 }
+}
+
+/// LWE ciphertext (one significant limb, the others zero) whose mod-switched image is exactly `l2n` (direction applied);
+/// requires lwe radix > log2(2N ext) + 1 (first branch of mod_switch_2n)
+fn crafted_lwe(c: &Bp, l2n: &[i64]) -> Vec<i128> {
+    let n2 = (2 * c.n * c.ext) as i64;
+    let diff = c.b_lwe as i64 - n2.trailing_zeros() as i64;
+    assert!(diff >= 1);
+    let size = (c.k_lwe as usize).div_ceil(c.b_lwe as usize);
+    let w = c.n_lwe + 1;
+    let mut lwe = vec![0i128; size * w];
+    for (i, v) in l2n.iter().enumerate() {
+        let mut v = ((*v % n2) + n2) % n2;
+        if c.dir == 0 { if v > n2 / 2 { v -= n2 } } else if v >= n2 / 2 { v -= n2 }
+        lwe[i] = (if c.dir == 0 { -v } else { v } << diff) as i128;
+    }
+    lwe
+}
+
+fn rand_f(rng: &mut Rng, len: usize, kmsg: usize, b: usize) -> Vec<i128> {
+    let rem = kmsg % b;
+    let bits = (kmsg + 1).min(62 - rem) as u32;
+    let dict: Vec<i64> = vec![0, 1, -1, (1i64 << (kmsg.min(61 - rem) - 1)) - 1, -(1i64 << (kmsg.min(61 - rem) - 1)), 1i64 << (kmsg.min(61 - rem) - 1),
+                              if rem > 0 { -(1i64 << (rem - 1)) } else { -(1i64 << (b.min(60) - 1)) },
+                              if rem > 0 { 1i64 << (rem - 1) } else { 1i64 << (b.min(60) - 1) }];
+    (0..len).map(|_| match rng.below(4) {
+        0 => rng.pick(&dict) as i128,
+        _ => { let m = (1i64 << bits) - 1; ((rng.i64() & m) - (1i64 << (bits - 1))) as i128 }
+    }).collect()
+}
+
+pub fn generate(tier: &str, seed: u64) -> Vec<Rec> {
+    let thorough = tier == "thorough";
+    let mut rng = Rng::new(seed);
+    let mut out: Vec<Rec> = vec![];
+    let mut be_rr = 0i128;
+    let mut next_be = || { be_rr = be_rr % 4 + 1; be_rr };
+
+    // ---------------- clear path ----------------
+    // (base2k, k_lut, kmsg): small and large radices, message in the first / a lower limb, scale 1 and > 1, one-limb tables
+    let radices: [(usize, usize, usize); 7] = [(4, 8, 3), (3, 9, 5), (5, 5, 5), (17, 34, 20), (19, 19, 5), (20, 40, 21), (31, 62, 31)];
+    for n in [8usize, 16, 32] {
+        for ext in [1usize, 2, 4, 8] {
+            let domain = n * ext;
+            let t = (2 * domain) as i64;
+            for (ri, (b, klut, kmsg)) in radices.iter().enumerate() {
+                let mut lens: Vec<usize> = (0..=n.trailing_zeros()).map(|i| 1usize << i).collect(); // every divisor of the domain that set() accepts (len <= N)
+                if ri % 3 == 0 { lens.extend([3usize, 5, 6, 7, n + 1, 2 * n, 0]); }           // non-dividing / rejected lengths: correspondence only
+                for len in lens {
+                    let be = next_be();
+                    let f = rand_f(&mut rng, len, *kmsg, *b);
+                    let ps = vec![be, n as i128, ext as i128, *b as i128, *klut as i128, *kmsg as i128];
+                    out.push(Rec::new(14001, ps.clone(), vec![f.clone()]));
+                    let stp = if len == 0 { 0 } else { (domain + len / 2) / len };
+                    if len == 0 || len > n || len * stp > domain { continue; }
+                    // sweep: every k in [-2N ext, 2N ext) (both directions), a few beyond, and the i64 extremes
+                    let full_sweep = thorough || n == 8 || ri == 0 || ri == 4;
+                    let mut ks: Vec<i128> = if full_sweep { (-t..t).map(|k| k as i128).collect() }
+                                            else { (0..48).map(|_| rng.range(-t, t - 1) as i128).collect() };
+                    ks.extend([-t - 1, -t - 3, t, t + 5, 3 * t + 1, -5 * t - 2, i64::MIN, i64::MAX, i64::MIN + 1, 1 << 62, -(1 << 62) - 7].map(|k| k as i128));
+                    out.push(Rec::new(14003, ps.clone(), vec![f.clone(), ks]));
+                    // full dumps after a rotation: all j at N = 8 (and everywhere in the thorough tier), a sample otherwise
+                    let js: Vec<i64> = if (n == 8 && (ri == 0 || ri == 3)) || thorough { (0..t).collect() }
+                                       else { let mut v: Vec<i64> = (0..6).map(|_| rng.range(-t, t - 1)).collect(); v.extend([1, -1, t - 1, i64::MIN]); v };
+                    for j in js {
+                        let mut p2 = ps.clone(); p2.push(j as i128);
+                        out.push(Rec::new(14002, p2, vec![f.clone()]));
+                    }
+                }
+            }
+        }
+    }
+
+    // ---------------- mod_switch_2n ----------------
+    for n2 in [2i128, 4, 8, 16, 32, 64] {
+        for b in 1..=7usize {
+            for dir in [0i128, 1] {
+                let log2n = (128 - (n2 - 1).leading_zeros()) as usize + 1;
+                let need = if b > log2n { 1 } else { log2n.div_ceil(b) };
+                for size in [need, need + 1] {
+                    let lo = -(1i64 << (b - 1)); let hi = 1i64 << (b - 1);
+                    let mut limbs: Vec<Vec<i128>> = vec![vec![]; size];
+                    for x0 in lo..hi {
+                        let others: Vec<i64> = if b <= 4 { (lo..hi).collect() } else { (0..8).map(|_| rng.range(lo, hi - 1)).collect() };
+                        for x1 in others {
+                            limbs[0].push(x0 as i128);
+                            for (j, l) in limbs.iter_mut().enumerate().skip(1) { l.push(if j == 1 { x1 as i128 } else { rng.range(lo, hi - 1) as i128 }); }
+                        }
+                    }
+                    if limbs[0].len() < 2 { for l in limbs.iter_mut() { let x = l[0]; l.push(x); } }
+                    out.push(Rec::new(14004, vec![n2, b as i128, size as i128, dir], limbs));
+                }
+            }
+        }
+    }
+    for (n2, b) in [(1024i128, 19usize), (1024, 12), (1024, 11), (1024, 10), (2048, 13), (4096, 13), (8192, 19), (1 << 20, 22), (1 << 20, 20), (16, 62), (1024, 63)] {
+        for dir in [0i128, 1] {
+            let log2n = (128 - (n2 - 1).leading_zeros()) as usize + 1;
+            let size = if b > log2n { 2 } else { log2n.div_ceil(b).max(2) };
+            let h = 1i64 << (b - 1);
+            let d = if b > log2n { b - (log2n - 1) } else { 1 };
+            let mut dict: Vec<i64> = vec![0, 1, -1, h - 1, -h, -h + 1, 1 << (d - 1), (1 << (d - 1)) - 1, -(1 << (d - 1)), -(1 << (d - 1)) - 1, -(1 << (d - 1)) + 1,
+                                          3 << (d - 1), -(3 << (d - 1)), h - (1 << (d - 1)), h - (1 << (d - 1)) - 1, -h + (1 << (d - 1))];
+            for _ in 0..32 { dict.push(rng.range(-h, h - 1)); }
+            let mut limbs: Vec<Vec<i128>> = vec![vec![]; size];
+            for x0 in &dict { limbs[0].push(*x0 as i128); for l in limbs.iter_mut().skip(1) { l.push(rng.range(-h, h - 1) as i128); } }
+            out.push(Rec::new(14004, vec![n2, b as i128, size as i128, dir], limbs.clone()));
+            // limbs out of normal form (the rule does not speak about them; correspondence only)
+            let mut l2 = limbs.clone();
+            for (i, x) in [i64::MIN, i64::MAX, h, -h - 1, i64::MAX - 1].iter().enumerate() { l2[0][i] = *x as i128; }
+            out.push(Rec::new(14004, vec![n2, b as i128, size as i128, dir], l2));
+        }
+    }
+
+    // ---------------- blind path, zero mask: exact on every limb, every index ----------------
+    for n in [8usize, 16, 32] {
+        for (ext, block, dist) in [(1usize, 1usize, 0i128), (1, 1, 1), (1, 1, 2), (1, 1, 3), (1, 3, 0), (2, 3, 0), (4, 1, 0), (8, 2, 0)] {
+            for (b, klut, kres, kbrk, kmsg) in [(19u32, 19u32, 38u32, 57u32, 5usize), (17, 34, 51, 68, 20)] {
+                for dir in [0i128, 1] {
+                    let mut c = tiny_params(next_be(), n);
+                    c.ext = ext; c.block = block; c.dist = dist; c.n_lwe = 2 * block.max(1); c.base2k = b; c.b_lwe = b; c.k_lwe = b;
+                    c.k_lut = klut; c.k_res = kres; c.k_brk = kbrk; c.kmsg = kmsg; c.dir = dir; c.rows = kres / b;
+                    let t = (2 * n * ext) as i64;
+                    let len = 1usize << rng.below(n.trailing_zeros() as u64 + 1);
+                    let f = rand_f(&mut rng, len, kmsg, b as usize);
+                    let sk = to128(&sk_lwe_of(&c));
+                    let idxs: Vec<i64> = if n == 8 || thorough { (0..t).collect() } else { let mut v: Vec<i64> = (0..10).map(|_| rng.range(0, t - 1)).collect(); v.extend([0, 1, t - 1, t / 2]); v };
+                    for idx in idxs {
+                        let mut l2n = vec![0i64; c.n_lwe + 1];
+                        l2n[0] = idx;
+                        out.push(Rec::new(14010, c.ps(), vec![f.clone(), crafted_lwe(&c, &l2n), sk.clone()]));
+                    }
+                }
+            }
+        }
+    }
+
+    // ---------------- blind path, real keys, every message ----------------
+    let pmax = if thorough { 5 } else { 3 };
+    let variants: [(i128, usize, usize); 10] = [(0, 1, 1), (1, 1, 1), (2, 1, 1), (3, 1, 1), (0, 7, 1), (0, 4, 1), (0, 7, 2), (0, 7, 4), (0, 7, 8), (0, 1, 2)];
+    for (set, base) in [test_params(0), alt_params(0)].iter().enumerate() {
+        for (vi, (dist, block, ext)) in variants.iter().enumerate() {
+            if set == 1 && !(vi == 0 || vi == 1 || vi == 5 || vi == 7) { continue; }
+            let block = if set == 1 && *block == 7 { 4 } else { *block };
+            let keys: Vec<u64> = if thorough { vec![1, 2, 3] } else if vi == 0 || vi == 4 || vi == 6 { vec![1, 2] } else { vec![1] };
+            for key_seed in keys {
+                for dir in [0i128, 1] {
+                    for p in 1..=pmax {
+                        let be = if set == 0 { [1i128, 2][(vi + p) % 2] } else { next_be() };
+                        let mut c = *base;
+                        c.be = be; c.dist = *dist; c.block = block; c.ext = *ext; c.key_seed = key_seed; c.dir = dir; c.p = p; c.kmsg = p + 1;
+                        let f: Vec<i128> = (0..1usize << p).map(|_| rng.range(0, (1 << (p + 1)) - 1) as i128).collect();
+                        let sk = to128(&sk_lwe_of(&c));
+                        for x in 0..(1i64 << (p + 1)) {
+                            c.x = x;
+                            out.push(Rec::new(14020, c.ps(), vec![f.clone(), fresh_lwe(&c, rng.next()), sk.clone()]));
+                        }
+                    }
+                }
+            }
+        }
+    }
+
+    // ---------------- blind path, real keys, boundary masks (noise-free ciphertexts with chosen mod-switched coefficients) ----------------
+    for (dist, block, ext) in [(0i128, 1usize, 1usize), (0, 7, 1), (0, 7, 2), (0, 7, 4), (0, 7, 8), (0, 1, 4)] {
+        for dir in [0i128, 1] {
+            let mut c = test_params(if ext > 2 { 2 } else { 1 });
+            c.dist = dist; c.block = block; c.ext = ext; c.dir = dir; c.p = 3; c.kmsg = 4;
+            let t = (2 * c.n * c.ext) as i64;
+            let e = ext as i64;
+            let f: Vec<i128> = (0..8).map(|i| (2 * i + 1) as i128).collect();
+            let sk = sk_lwe_of(&c);
+            let mut avals: Vec<i64> = vec![0, 1, -1, e, -e, t / 2, t / 2 - 1, -(t / 2) + 1, e * (c.n as i64), e * (c.n as i64) + 1, e + 1, -e - 1, 2 * e - 1];
+            for r in 1..e { avals.extend([r, -r, t / 2 + r, e * (2 * c.n as i64 - 1) + r]); }
+            avals.sort(); avals.dedup();
+            let reps = if thorough { 3 } else { 1 };
+            for av in avals {
+                for _ in 0..reps {
+                    // every mask coefficient random, except that those the key selects are `av` in a random subset
+                    let mut l2n: Vec<i64> = (0..=c.n_lwe).map(|_| rng.range(-t / 2 + 1, t / 2 - 1)).collect();
+                    for i in 0..c.n_lwe { if sk[i] == 1 && rng.below(3) != 0 { l2n[i + 1] = av; } }
+                    let x = rng.range(0, 15);
+                    let sum: i64 = (0..c.n_lwe).map(|i| l2n[i + 1] * sk[i]).sum();
+                    let target = if dir == 0 { -(x * t / 16) } else { x * t / 16 };
+                    l2n[0] = target - sum;
+                    c.x = x;
+                    out.push(Rec::new(14020, c.ps(), vec![f.clone(), crafted_lwe(&c, &l2n), to128(&sk)]));
+                }
+            }
+        }
+    }
+    // LWE radix at or below log2(2N ext) + 1: second branch of mod_switch_2n, end to end
+    for b_lwe in [11u32, 8] {
+        for dir in [0i128, 1] {
+            for x in [0i64, 1, 5, 9] {
+                let mut c = test_params(1);
+                c.b_lwe = b_lwe; c.dir = dir; c.x = x; c.p = 3; c.kmsg = 4;
+                let f: Vec<i128> = (0..8).map(|i| (2 * i + 1) as i128).collect();
+                let sk = to128(&sk_lwe_of(&c));
+                out.push(Rec::new(14020, c.ps(), vec![f, fresh_lwe(&c, rng.next()), sk]));
+            }
+        }
     }
     out
 }
